@@ -241,6 +241,17 @@ class Materializer:
         return self.lift(result, ctx)
 
 
+STUB_STATE = {}
+
+
+def stub_bypassed():
+    """did the real code compute an HMAC-SHA512 WITHOUT going through the substituted PRF while a substitution was
+    active?  Then the run says nothing about the contract under the substituted PRF (the substitution point
+    helper.hmac_sha512 / bip32.hmac_sha512 / bip85.hmac_sha512 is an assumption of the replay harness, not of the
+    property): such a sample is discarded, never reported."""
+    return bool(STUB_STATE.get("active")) and STUB_STATE["state"]["bypass"] > 0
+
+
 def install_stubs(stubs):
     """stubs: [[name, [arg hex...], out hex]] from the model; returns an undo function"""
     import btc_hd_wallet.helper as helper
@@ -265,19 +276,51 @@ def install_stubs(stubs):
             U.WILDCARD["hmac512"] = mk(side, half)
     real = helper.hmac_sha512
     saved = [(m, m.hmac_sha512) for m in (helper, bip32, bip85) if hasattr(m, "hmac_sha512")]
+    import hmac as _hmac
+    state = dict(in_stub=0, bypass=0)
+    STUB_STATE.clear()
+    STUB_STATE.update(state=state, active=bool(U.OVERRIDES or U.WILDCARD))
 
     def stub(key, msg):
-        ov = U.override("hmac512", bytes(key), bytes(msg))
-        if ov is not None:
-            return ov
-        return real(key=key, msg=msg)
+        state["in_stub"] += 1
+        try:
+            ov = U.override("hmac512", bytes(key), bytes(msg))
+            if ov is not None:
+                return ov
+            return real(key=key, msg=msg)
+        finally:
+            state["in_stub"] -= 1
+    real_new, real_digest = _hmac.new, _hmac.digest
+    real_HMAC_copy = _hmac.HMAC.copy
+
+    def is512(d):
+        return d in ("sha512", "SHA512") or getattr(d, "__name__", "") in ("sha512", "openssl_sha512")
+
+    def new(key, msg=None, digestmod=""):
+        if not state["in_stub"] and is512(digestmod):
+            state["bypass"] += 1           # an HMAC-SHA512 computed without going through the substituted PRF
+        return real_new(key, msg, digestmod)
+
+    def digest(key, msg, digest):
+        if not state["in_stub"] and is512(digest):
+            state["bypass"] += 1
+        return real_digest(key, msg, digest)
+
+    def hcopy(self):
+        if not state["in_stub"] and "512" in str(getattr(self, "name", "")):
+            state["bypass"] += 1           # a pre-keyed HMAC state reused (the key set-up happened at import time)
+        return real_HMAC_copy(self)
     if U.OVERRIDES or U.WILDCARD:
         for m, _ in saved:
             m.hmac_sha512 = stub
+        _hmac.new, _hmac.digest = new, digest
+        _hmac.HMAC.copy = hcopy
 
     def undo():
         for m, f in saved:
             m.hmac_sha512 = f
+        _hmac.new, _hmac.digest = real_new, real_digest
+        _hmac.HMAC.copy = real_HMAC_copy
         U.OVERRIDES.clear()
         U.WILDCARD.clear()
     return undo
@@ -306,6 +349,8 @@ def replay_contract(contract, model, stubs, clause=None):
             kind, exc = "return", None
         except BaseException as e:     # noqa
             val, kind, exc = None, "raise", type(e)
+        if stub_bypassed():
+            return dict(confirmed=None, detail="the code computed HMAC-SHA512 without the substituted PRF: sample discarded")
         lifted = M.lift_all(ctx, val)
         out = Outcome(kind, value=lifted, exc_cls=exc)
         failed = []
